@@ -32,6 +32,8 @@ type Slicer struct {
 	// ThroughDeref: a load through a pointer that is itself a computed value
 	// (call result, parameter) continues into the pointer's provenance.
 	ThroughDeref bool
+	// ThroughRange: values produced by iterating / indexing a collection continue into the collection.
+	ThroughRange bool
 	maxDepth     int
 }
 
@@ -65,6 +67,30 @@ func (s *Slicer) Origins(v ssa.Value) []ssa.Value {
 			visit(x.X, resIdx, depth)
 		case *ssa.Slice:
 			visit(x.X, resIdx, depth)
+		case *ssa.Next:
+			if s.ThroughRange {
+				visit(x.Iter, resIdx, depth)
+				return
+			}
+			addTerm(v)
+		case *ssa.Range:
+			if s.ThroughRange {
+				visit(x.X, resIdx, depth)
+				return
+			}
+			addTerm(v)
+		case *ssa.Lookup:
+			if s.ThroughRange {
+				visit(x.X, resIdx, depth)
+				return
+			}
+			addTerm(v)
+		case *ssa.Index:
+			if s.ThroughRange {
+				visit(x.X, resIdx, depth)
+				return
+			}
+			addTerm(v)
 		case *ssa.Extract:
 			if s.KeepExtract {
 				if _, isCall := x.Tuple.(*ssa.Call); isCall {
